@@ -204,8 +204,9 @@ def flatten(m: h.Instantiable) -> h.Instantiable:
 
     # add all connections to the root level with names resolved
     for n in nodes:
-        if n.make_name() in new_module.instances:
-            msg = f"Cannot flatten {m.name}: more than one instance would be named `{n.make_name()}`"
+        if n.make_name() in new_module.namespace:
+            # Another instance, or a signal or port: adding under that name would replace it
+            msg = f"Cannot flatten {m.name}: more than one instance or net would be named `{n.make_name()}`"
             raise RuntimeError(msg)
         new_inst = new_module.add(n.inst.of(), name=n.make_name())
 
